@@ -39,6 +39,7 @@ SIZE = {
     "h256": 32,
     "pair": 16,
     "var": None,
+    "nl": None,
 }
 
 # Packing factor (elements per 32-byte chunk) of the basic kinds, None = not packed (composite).
@@ -52,12 +53,15 @@ PACKING = {
     "h256": None,
     "pair": None,
     "var": None,
+    "nl": None,
 }
 
 KINDS = tuple(SIZE.keys())
 
 # `var` is ssz_types::VariableList<u8, U4>: 0..4 bytes.
 VAR_MAX_LEN = 4
+# `nl` is milhouse::List<u64, U64> used as an element: 0..64 u64 values (SSZ: their concatenation).
+NL_MAX_LEN = 64
 
 
 # --------------------------------------------------------------------------- hashing basics
@@ -110,12 +114,14 @@ def valid_element(kind, value):
         return False
     if kind == "var":
         return len(value) <= VAR_MAX_LEN
+    if kind == "nl":
+        return len(value) % 8 == 0 and len(value) <= 8 * NL_MAX_LEN
     return len(value) == SIZE[kind]
 
 
 def default_element(kind):
     """Default element: all-zero encoding of the fixed size; `var`: empty."""
-    if kind == "var":
+    if kind in ("var", "nl"):
         return b""
     return bytes(SIZE[kind])
 
@@ -138,6 +144,10 @@ def element_root(kind, value):
     if kind == "var":
         data_root = value + bytes(BYTES_PER_CHUNK - len(value))
         return hash_pair(data_root, uint_to_chunk(len(value)))
+    if kind == "nl":
+        # List[uint64, 64]: merkleize(pack(values), limit = 16 chunks) with the length mixed in
+        items = [value[i : i + 8] for i in range(0, len(value), 8)]
+        return hash_tree_root_list("u64", NL_MAX_LEN, items)
     raise ValueError("unknown kind %r" % (kind,))
 
 
